@@ -10,6 +10,8 @@ CLAIMED = {
          "static analysis: path-sensitive typestate + value-provenance abstract interpretation over go/ssa", "DESIGN.md §5 C01"),
  "C02": ("Sound static decision for every budget N>=1 (N symbolic): the retry loop performs exactly N iterations when left through its budget test (scalar-evolution arithmetic), the tested value is the node's GetMaxRetries() (or 1 without retry settings), one attempt per iteration, further attempts only after known failures, fallback exactly once iff exhausted with the last error; on the single-node and the per-item path.",
          "static analysis: scalar-evolution trip count + path-sensitive retry typestate over go/ssa", "DESIGN.md §5 C02"),
+ "C03": ("Sound static decision of routing on every abstract path of Flow.Exec: start node first; each next node is exactly transitions[prev][its action]; decisions between nodes depend only on that lookup, the child's error and the context; success only when the lookup is known absent/nil; no heap effects while running; Connect overwrites per (from, action) unconditionally. Covers cycles, self-loops, re-connections and repeated runs because the rule is per step over arbitrary table contents.",
+         "static analysis: path-sensitive routing-provenance abstract interpretation + map-effect analysis over go/ssa", "DESIGN.md §5 C03"),
  "C04": ("Sound static decision over all abstract paths of Run that nil is returned iff post succeeded, that every error return wraps the failing callback's own error term, and that no callback follows a failing one.",
          "static analysis: path-sensitive error-provenance (wrap-chain) abstract interpretation over go/ssa", "DESIGN.md §5 C04"),
  "C05": ("Sound static decision over all abstract paths of the single-node Run that a context observation precedes prep and every attempt, and that every cancelled edge returns a wrapped ctx.Err() without further callbacks. Promptness/timing not decided.",
@@ -20,6 +22,8 @@ CLAIMED = {
          "static analysis: path-sensitive per-item typestate + effect analysis over go/ssa", "DESIGN.md §5 C07"),
  "C09": ("Sound static decision: stop mode halts (sequential: no exec after a stored failure; concurrent: flag read under the mutex gates exec, failing task sets it under the mutex, mutex released on all task paths) and slot coverage: every slot is assigned an item outcome or an error on every path reaching post.",
          "static analysis: path-sensitive slot-coverage + lock-held typestate over go/ssa", "DESIGN.md §5 C09"),
+ "C10": ("Sound static decision that a flow used as a node threads the parent's store and context to every child, reports the last child's action, is run by Run like any node (no type test for *Flow), and has the default one-attempt budget; with C01/C03/C04 this gives the flattening argument by induction on nesting.",
+         "static analysis: path-sensitive value-provenance abstract interpretation over go/ssa", "DESIGN.md §5 C10"),
  "C11": ("Sound static decision of the structural causes: per-item/per-attempt context observation, interruptible per-item wait, every unexecuted item's slot is an error at post, mutex released on every task path and Wait before post (no hang). Wall-clock promptness and which worker holds which item are not decided.",
          "static analysis: path-sensitive context-observation typestate + slot coverage over go/ssa", "DESIGN.md §5 C11"),
  "C18": ("Sound static decision that every nil-error return of Run (single, batch, empty batch) carries a provably non-empty action.",
